@@ -18,7 +18,10 @@ This module generates the cases:
 * kinds     - every subset of the six request kinds outstanding x every way the session ends x onLeave variants;
 * retry     - outstanding requests whose errback re-issues a request of the same / another kind (retry-on-error)
               while the session ends via GOODBYE (either initiator), loss, disconnect or a protocol failure;
-* illegal   - every illegal message kind at every position of every short conversation;
+* illegal   - every illegal message kind at every position of every short conversation, including AFTER the session
+              ended while the transport is still up (locally / router initiated / crossing GOODBYE, ABORT, after re-join);
+* rejoin    - two consecutive sessions on one transport: session 1 ends (GOODBYE either initiator, crossing, ABORT) with
+              an onLeave that keeps the transport, join() again, then every short conversation + loss for session 2;
 * random    - long sequences, several deviating callbacks at once, random request subsets at several positions,
               requests issued after the session ended, all serializers.
 """
@@ -39,7 +42,10 @@ RULE = ("a case = (client transport websocket|rawsocket, serializer, behaviour o
         "finish own close}, each followed by {clean loss, unclean loss, plain end}, i.e. transport loss after EVERY prefix "
         "of every conversation; kinds family: all 64 subsets of the six request kinds x 9 session endings x 4 onLeave "
         "variants; retry family: each request kind (and groups) with an errback that re-issues a request of the same/another "
-        "kind x 9 session endings x 4 onLeave variants; illegal family: every illegal message kind after every legal prefix of length <= 3 (4 thorough); random "
+        "kind x 9 session endings x 4 onLeave variants; rejoin family: 7 first sessions (GOODBYE by either side, crossing, ABORT, ...) x onLeave keeping the transport x "
+        "join() again x ALL step sequences of length <= 3 (4 thorough) with loss after every prefix for the second session; "
+        "illegal-after-end family: every pre-session-illegal message kind after every way a session ended with the transport "
+        "kept; illegal family: every illegal message kind after every legal prefix of length <= 3 (4 thorough); random "
         "family: sequences up to 12 steps with 0-3 deviating callbacks, request subsets at several positions (also after "
         "the session ended), json/msgpack/cbor. Every family runs on both transports and both frameworks. Non-trivial = at "
         "least one clause of the statement was evaluated on the history (always the case once the transport handshake "
@@ -52,7 +58,8 @@ ASSUMPTIONS = [
     "any router message delivered after the client started closing its transport (disconnect(), default onLeave, protocol failure) makes the case 'ambiguous': only order / at-most-once / nothing-pending / API-after-end are then asserted",
     "leave after the CLIENT aborted the handshake itself (onChallenge raised, onWelcome denied) is grey: the statement names only the router's ABORT",
     "illegal = exactly the statement's definition (pre-session: anything but WELCOME/ABORT/CHALLENGE; established: the handshake messages HELLO/WELCOME/CHALLENGE/AUTHENTICATE/ABORT - an ABORT after WELCOME is a protocol violation exactly like a second WELCOME; ABORT before establishment is legal); 'rejected as a protocol violation' is observed as: the client asks its transport to close/abort (or writes a WebSocket close frame) and none of the message's effects (callback, observer, reply on the wire, successful completion of a request) happens",
-    "after the client sent ABORT, after a completed GOODBYE exchange and after a protocol failure the scripted router sends nothing further",
+    "after the client sent ABORT, after a completed GOODBYE exchange / a router ABORT and after a protocol failure the scripted router sends nothing further - except the quantifier's one illegal message (no session is established then, so the pre-session rule applies: anything but WELCOME/ABORT/CHALLENGE must be rejected; asserted only while the client keeps the transport, i.e. onLeave without the default implementation) and the answers to a new HELLO",
+    "two consecutive sessions on one transport (join() again after a completed GOODBYE exchange / router ABORT with an onLeave that keeps the transport): join and leave are judged at most once and in order PER SESSION, connect and disconnect per transport connection; the GOODBYE clauses and leave-exactly-when apply to each session afresh",
     "nothing-pending is asserted when the transport is gone, and additionally right after 'leave' when the library's default onLeave ran; 'API calls afterwards' are made once the transport is gone: a synchronous exception or an already failed future both count as failing immediately",
     "exceptions that reach the networking framework (e.g. asyncio 'Future exception was never retrieved' for a failing onJoin) are outside the statement: counted as evidence (escaped_to_framework_observed), never a violation",
 ]
@@ -66,6 +73,10 @@ DECIDING = {
     "loss_before_answer": 20, "loss_challenged": 20, "loss_joined_idle": 20, "loss_joined_outstanding": 20, "loss_closing": 20,
     "loss_joined_outstanding_call": 10, "loss_joined_outstanding_publish": 10, "loss_joined_outstanding_subscribe": 10,
     "loss_joined_outstanding_unsubscribe": 10, "loss_joined_outstanding_register": 10, "loss_joined_outstanding_unregister": 10,
+    "rejoined": 500, "rejoin_after": 3, "illegal_after_end_checked": 200, "illegal_after_goodbye_client_initiated": 50,
+    "illegal_after_goodbye_router_initiated": 50, "api_after_end_publish_plain": 1000, "api_after_end_publish_opts": 1000,
+    "api_after_end_publish_noack": 1000, "api_after_end_call_opts": 1000, "api_after_end_subscribe_opts": 1000,
+    "api_after_end_register_opts": 1000, "api_after_end_unsubscribe": 100, "api_after_end_unregister": 100,
     "reissued_in_errback": 200, "reissued_future_returned": 50, "coalesced_welcome_goodbye": 20, "goodbye_crossing": 20, "conv_c2-welcome": 10, "conv_c1-rabort": 10, "transports_fw": 4, "end_reasons": 12,
 }
 
@@ -89,11 +100,11 @@ TRANSPORTS = ["websocket", "rawsocket"]
 # ------------------------------------------------------------------------------------------------
 # abstract conversation state - used ONLY to prune the generator (never for a verdict)
 # ------------------------------------------------------------------------------------------------
-START = ("pre", 0, False, 0, 0, 0, 0)
+START = ("pre", 0, False, 0, 0, 0, 0, 0)
 
 
 def letters(st, lim):
-    phase, nch, tclose, nleave, ndisc, nreq, nill = st
+    phase, nch, tclose, nleave, ndisc, nreq, nill, nrej = st
     out = []
     if phase == "pre":
         if nch < 2:
@@ -109,15 +120,17 @@ def letters(st, lim):
         out.append("disconnect")
     if nreq < lim["req"] and (phase in ("pre", "joined", "closing") or lim["late_req"]):
         out.append("req")
-    if nill < 1 and phase in ("pre", "joined", "closing") and lim["illegal"]:
-        out.append("illegal")
+    if nill < 1 and phase in ("pre", "joined", "closing", "left", "aborted") and lim["illegal"]:
+        out.append("illegal")     # also after the session ended (transport kept): not established = pre-session rule
+    if nrej < lim.get("rejoin", 0) and phase in ("left", "aborted") and not tclose:
+        out.append("rejoin")      # a second session on the same transport (needs an onLeave that keeps it)
     if tclose or phase in ("left", "aborted", "violated"):
         out.append("finish")
     return out
 
 
 def advance(st, l):
-    phase, nch, tclose, nleave, ndisc, nreq, nill = st
+    phase, nch, tclose, nleave, ndisc, nreq, nill, nrej = st
     if l == "challenge":
         nch += 1
     elif l == "welcome":
@@ -138,15 +151,19 @@ def advance(st, l):
     elif l == "illegal":
         nill += 1
         phase = "violated"
-    return (phase, nch, tclose, nleave, ndisc, nreq, nill)
+    elif l == "rejoin":
+        nrej += 1
+        phase, nch, nleave = "pre", 0, 0
+    return (phase, nch, tclose, nleave, ndisc, nreq, nill, nrej)
 
 
 LIM_TREE = {"disc": 1, "req": 1, "late_req": False, "illegal": True}
 LIM_PREFIX = {"disc": 1, "req": 1, "late_req": False, "illegal": False}
-LIM_RANDOM = {"disc": 2, "req": 3, "late_req": True, "illegal": True}
+LIM_RANDOM = {"disc": 2, "req": 3, "late_req": True, "illegal": True, "rejoin": 1}
+LIM_SECOND = {"disc": 1, "req": 1, "late_req": False, "illegal": True}
 
 
-def tree(maxlen, lim):
+def tree(maxlen, lim, start=None):
     """Every abstract letter sequence of length <= maxlen -> (letters, states before each letter)."""
     def rec(st, seq, sts):
         yield seq, sts + [st]
@@ -154,7 +171,7 @@ def tree(maxlen, lim):
             return
         for l in letters(st, lim):
             yield from rec(advance(st, l), seq + [l], sts + [st])
-    yield from rec(START, [], [])
+    yield from rec(start or START, [], [])
 
 
 def concrete(seq, sts, pick):
@@ -169,7 +186,7 @@ def concrete(seq, sts, pick):
             else:
                 steps.append(["req", list(PRE_KINDS)])
         elif l == "illegal":
-            table = ILLEGAL_PRE if phase == "pre" else ILLEGAL_POST
+            table = ILLEGAL_POST if phase in ("joined", "closing") else ILLEGAL_PRE
             steps.append(["illegal", table[pick(len(table))]])
         elif l == "rgoodbye_x":
             steps.append(["rgoodbye", 1])
@@ -291,6 +308,59 @@ def family_retry(tier, seed):
                     yield {"transport": tr, "ser": "json", "modes": {}, "steps": [["req", kinds, retry]] + ending}
 
 
+FIRST_SESSIONS = [
+    [["welcome"], ["leave"], ["rgoodbye"]],                      # locally initiated close, acknowledged
+    [["welcome"], ["rgoodbye"]],                                 # router initiated close
+    [["welcome"], ["leave"], ["rgoodbye", 1]],                   # crossing GOODBYEs
+    [["challenge"], ["welcome"], ["setup"], ["req", list(KINDS)], ["leave"], ["rgoodbye"]],
+    [["welcome_goodbye"]],
+    [["abort"]],                                                 # router ABORT, then a new HELLO
+    [["welcome"], ["leave"], ["leave"], ["rgoodbye"]],
+]
+KEEP_TRANSPORT = ["nosuper", "raise_nosuper"]
+
+
+def family_rejoin(tier, seed):
+    """Two consecutive sessions on ONE transport: session 1 ends by a completed GOODBYE exchange (either initiator,
+    crossing) or a router ABORT, onLeave keeps the transport, the application calls join() again; then EVERY step
+    sequence up to a bounded length (with loss after every prefix) applies to session 2."""
+    maxlen = 3 if tier == "quick" else 4
+    i = 0
+    for fi, first in enumerate(FIRST_SESSIONS):
+        for seq, sts in tree(maxlen, LIM_SECOND):
+            hh = int(h(["rej", fi, seq, seed]), 16)
+            steps2 = concrete(seq, sts, lambda k: hh % k)
+            for ti, term in enumerate(TERMINATORS):
+                if term is not None and seq and seq[-1] == "finish":
+                    continue
+                i += 1
+                keep = KEEP_TRANSPORT if tier != "quick" else [KEEP_TRANSPORT[(hh + ti) & 1]]
+                for onleave in keep:
+                    trs = TRANSPORTS if (tier != "quick" and len(seq) <= 3) else [TRANSPORTS[(hh >> 1 ^ ti) & 1]]
+                    for tr in trs:
+                        yield {"transport": tr, "ser": "json", "modes": {"onLeave": onleave},
+                               "steps": first + [["rejoin"]] + steps2 + ([term] if term else [])}
+
+
+def family_illegal_after_end(tier, seed):
+    """Every message kind that is illegal while no session is established, inserted AFTER the session ended with the
+    transport still up (completed GOODBYE exchange - locally initiated, router initiated, crossing -, router ABORT,
+    client-side refusal of the WELCOME), and again after a re-join."""
+    prefixes = FIRST_SESSIONS + [
+        [["welcome"], ["rgoodbye"], ["rejoin"], ["welcome"], ["leave"], ["rgoodbye"]],
+        [["welcome"], ["leave"], ["rgoodbye"], ["rejoin"]],
+        [["welcome"], ["leave"], ["rgoodbye"], ["rejoin"], ["challenge"]],
+    ]
+    for prefix in prefixes:
+        for name in ILLEGAL_PRE:
+            for onleave in KEEP_TRANSPORT:
+                for tr in TRANSPORTS:
+                    yield {"transport": tr, "ser": "json", "modes": {"onLeave": onleave}, "steps": prefix + [["illegal", name], ["finish"]]}
+    for name in ILLEGAL_PRE:       # the client refused the WELCOME itself (ABORT sent, transport stays up)
+        for tr in TRANSPORTS:
+            yield {"transport": tr, "ser": "json", "modes": {"onWelcome": "deny"}, "steps": [["welcome"], ["illegal", name], ["finish"]]}
+
+
 def family_illegal(tier, seed):
     """Every illegal message kind after every legal prefix."""
     maxlen = 3 if tier == "quick" else 4
@@ -308,7 +378,8 @@ def family_illegal(tier, seed):
 
 
 def enumerated(tier, seed):
-    for fam, gen in (("kinds", family_kinds), ("retry", family_retry), ("illegal", family_illegal), ("tree", family_tree)):
+    for fam, gen in (("kinds", family_kinds), ("retry", family_retry), ("illegal", family_illegal),
+                     ("illegal_after_end", family_illegal_after_end), ("rejoin", family_rejoin), ("tree", family_tree)):
         for case in gen(tier, seed):
             yield fam, case
 
@@ -341,7 +412,7 @@ def gen_random(rng):
             kinds = [k for k in pool if rng.random() < 0.5] or [rng.choice(pool)]
             steps.append(["req", kinds, retry] if retry else ["req", kinds])
         elif l == "illegal":
-            table = ILLEGAL_PRE if phase == "pre" else ILLEGAL_POST
+            table = ILLEGAL_POST if phase in ("joined", "closing") else ILLEGAL_PRE
             steps.append(["illegal", rng.choice(table)])
         elif l == "rgoodbye_x":
             steps.append(["rgoodbye", 1])
@@ -355,6 +426,8 @@ def gen_random(rng):
     for _ in range(rng.choice([0, 1, 1, 2, 2, 3])):
         cb = rng.choice(list(MODE_CHOICES))
         modes[cb] = rng.choice(MODE_CHOICES[cb])
+    if "rejoin" in seq or (rng.random() < 0.15 and "onLeave" not in modes):
+        modes["onLeave"] = rng.choice(["nosuper", "raise_nosuper"])
     return {"transport": rng.choice(TRANSPORTS), "ser": rng.choice(["json", "json", "msgpack", "cbor"]), "modes": modes,
             "steps": steps, "sid": rng.choice([1, 7001, 2 ** 31, 2 ** 53])}
 
@@ -407,7 +480,7 @@ def run_shard(params, R):
     fw = "tx" if txaio.using_twisted else "aio"
     part, parts, tier, seed = params["part"], params["parts"], params["tier"], params["seed"]
     for name in DECIDING:
-        if name not in ("illegal_kinds", "transports_fw", "end_reasons"):
+        if name not in ("illegal_kinds", "transports_fw", "end_reasons", "rejoin_after"):
             R.count(name, 0)
     for idx, (fam, case) in enumerate(enumerated(tier, seed)):
         if idx % parts != part:
@@ -441,7 +514,7 @@ MANIFEST_ENTRY = {
              "leave present exactly when a joined session ended or the router aborted; illegal-phase messages fail the transport "
              "without any effect; at most one GOODBYE, the peer's GOODBYE answered iff this side did not initiate; no request "
              "future pending (or completed successfully without a reply) once the transport is gone; every API call afterwards "
-             "raises or returns a failed future and writes nothing. Held = no refuting event on the executions listed in the "
+             "(every request kind incl. option variants: publish without options / PublishOptions() / acknowledge False / True, stale subscription and registration handles) raises or returns a failed future and writes nothing; a second session joined on the same transport is judged afresh; illegal messages are also inserted after the session ended while the transport is kept. Held = no refuting event on the executions listed in the "
              "evidence; not a proof."),
     "note": ("trusts vf/world.py fake transports, the plain-library router codec and the engine's session automaton; router "
              "messages delivered into a closing transport, leave after a client-side ABORT, order between callback and observer "
